@@ -58,7 +58,7 @@ def text_inputs(chk, quick):
 def run_text(chk, quick, counts):
     datas = text_inputs(chk, quick)
     cases = [{"hex": d.hex()} for d in datas]
-    impl = vlib.run_impl("gcov_text", cases, PID, parallel=4, timeout=600)
+    impl = vlib.run_impl("gcov_text", cases, PID, parallel=4, timeout=600, case_timeout=6)
     model = vlib.run_model(PID, "Run.ShowGcov", [vlib.app("run_gcov_text", list(d)) for d in datas], shard_size=200)
     for d, case, ri, rm in zip(datas, cases, impl, model):
         chk.count()
